@@ -104,7 +104,8 @@ Inductive event :=
 | ETimeout (e : tevent)
 | EAppSend (t : bytes) (body : list (Z * bytes)) (ok : bool)   (* SendToTarget -> queueForSend; ok = ToApp verdict *)
 | EFlush                           (* messageEvent -> SendAppMessages *)
-| EStop.
+| EStop
+| EResetSeqTime.                  (* CheckResetTime crossed the configured ResetSeqTime while connected: sendLogonInReplyTo(true, nil) *)
 
 (* what the application can see of the header of the message it is handed (used by the C06 gate statement) *)
 Record mfacts := { mf_begin : bytes; mf_sender : option bytes; mf_target : option bytes; mf_stime : fres Z; mf_valid : verdict;
